@@ -138,6 +138,28 @@ ExpectedListing(s0) ==
         p2sh == IF hasP2sh THEN <<"<<< P2SH script >>>">> \o OpLines(redeemOf, 0) ELSE <<>>
     IN commit \o first \o spk \o p2sh
 
+(************************** the two-column view **************************)
+\* What the debugger shows after every command: on the left everything that is still to be executed (from the current position:
+\* the rest of the running script, then the scriptPubKey and P2SH sections; during the commitment phase the commitment steps and
+\* the committed script), on the right the stack, top first (the commitment state while that phase runs).
+ViewLeft(s) ==
+    LET t == s.tce
+        commit == IF t.active THEN <<"<<< taproot commitment >>>">> \o [i \in 1..PathLen(t.control) |-> "Branch: " \o BytesToHex(PathNode(t.control, i - 1))]
+                                   \o <<"CheckTapTweak", "<<< committed script >>>">> ELSE <<>>
+        rest == OpLines(s.ctx.script, s.vm.pc)
+        spk == IF s.succ # <<>> THEN <<"<<< scriptPubKey >>>">> \o OpLines(s.succ, 0) ELSE <<>>
+        hasP2sh == (s.p2sh /\ s.p2shStack # <<>>) \/ (s.succ # <<>> /\ "P2SH" \in s.ctx.flags /\ IsP2SH(s.succ))
+        redeem == IF s.succ # <<>> /\ "P2SH" \in s.ctx.flags /\ IsP2SH(s.succ) THEN LastPush(s.ctx.script) ELSE Top(s.p2shStack, 1)
+        p2sh == IF hasP2sh THEN <<"<<< P2SH script >>>">> \o OpLines(redeem, 0) ELSE <<>>
+    IN commit \o rest \o spk \o p2sh
+ViewRight(s) ==
+    IF s.tce.active THEN <<"i: " \o ToString(s.tce.i), "k: " \o BytesToHex(s.tce.k)>>
+    ELSE [j \in 1..Len(s.vm.stack) |-> LET it == s.vm.stack[Len(s.vm.stack) - j + 1] IN IF it = <<>> THEN "0x" ELSE BytesToHex(it)]
+\* a column entry cut to the column width
+Cut(str, cap) == LET c == StrToCodes(str) IN IF Len(c) > cap THEN CodesToStr(SubSeq(c, 1, cap - 3)) \o "..." ELSE str
+\* widths: never above 66, never below the longest current entry (capped) - they only grow during a session
+WidthOK(cap, lines) == cap <= 66 /\ cap >= 7 /\ \A i \in 1..Len(lines) : cap >= (IF Len(StrToCodes(lines[i])) > 66 THEN 66 ELSE Len(StrToCodes(lines[i])))
+
 \* n-fold Step from a session (used by RewindExact)
 RECURSIVE StepN(_, _)
 StepN(s, n) == IF n = 0 THEN s ELSE StepN(StepH(s), n - 1)
